@@ -183,7 +183,7 @@ func rulesC07(c *Ctx) {
 		okStore := false
 		for _, w := range Writes(sc.Body, false) {
 			if sc.IsField(w.LHS, sv) && w.RHS != nil {
-				if ce, ok := ast.Unparen(w.RHS).(*ast.CallExpr); ok && sc.IsCallTo(ce, fsv) && sc.ObjOf(ce.Args[0]) == sc.Param("t") {
+				if ce, ok := ast.Unparen(w.RHS).(*ast.CallExpr); ok && sc.IsCallTo(ce, fsv) && sc.ObjOf(ce.Args[0]) == types.Object(sc.ParamOfNamed(pM, "Transport")) {
 					wv := g.VertexOf(w.Stmt)
 					all := true
 					for _, r := range sc.Returns() {
@@ -251,7 +251,8 @@ func rulesC07(c *Ctx) {
 				guards := g.GuardsAt(rv)
 				viaDiscover := false
 				for _, dv := range g.callVertices(discObj) {
-					if g.Dominates(dv, rv) && hasAtom(guards, func(a Atom) bool { return AtomSaysNil(a, true, func(e ast.Expr) bool { return exprStr(e) == "err" }) }) && !g.ReachableFrom(hsv[0])[rv] {
+					derr := cc.VarFromCall(discObj, 1)
+					if g.Dominates(dv, rv) && derr != nil && hasAtom(guards, func(a Atom) bool { return AtomSaysNil(a, true, func(e ast.Expr) bool { return cc.ObjOf(e) == derr }) }) && !g.ReachableFrom(hsv[0])[rv] {
 						viaDiscover = true
 					}
 				}
@@ -260,7 +261,8 @@ func rulesC07(c *Ctx) {
 					if !ok || !a.Val {
 						return false
 					}
-					return isContainsSupp(cc, ce, nil) && exprStr(ce.Args[1]) == "res.ProtocolVersion"
+					name, onRes := cc.SelectorOn(ce.Args[1], cc.VarFromCall(hs, 0))
+					return isContainsSupp(cc, ce, nil) && onRes && name == "ProtocolVersion"
 				}) && g.Dominates(hsv[0], rv)
 				c.Check(viaDiscover || viaInit, "Connect:success-return#"+itoa(i), cc, r, "a session is returned only after discover succeeded or after the initialize result's version was found in supportedProtocolVersions (guards: %s)", atomsString(guards))
 				continue
@@ -275,10 +277,18 @@ func rulesC07(c *Ctx) {
 			}
 		}
 		c.Pin("Connect success returns", nOK, 2)
-		// fallback version
+		// fallback version: the variable that ends up as InitializeParams.ProtocolVersion
+		var versionVar types.Object
+		inspectNoLit(cc.Body, func(n ast.Node) {
+			if kv, ok := n.(*ast.KeyValueExpr); ok && exprStr(kv.Key) == "ProtocolVersion" {
+				if cl, ok := cc.ParentOf(kv).(*ast.CompositeLit); ok && isNamedType(cc.TypeOf(cl), modPath+"/"+pM, "InitializeParams") {
+					versionVar = cc.ObjOf(kv.Value)
+				}
+			}
+		})
 		okFB := false
 		for _, w := range Writes(cc.Body, false) {
-			if exprStr(w.LHS) == "protocolVersion" && w.RHS != nil {
+			if cc.ObjOf(w.LHS) == versionVar && versionVar != nil && w.RHS != nil {
 				if s, ok := cc.ConstString(w.RHS); ok && w.Tok == token.ASSIGN {
 					okFB = inTable(s) && s < modern
 					c.Check(okFB, "Connect:fallback-version", cc, w.Stmt, "the initialize fallback uses %q, a legacy table entry", s)
